@@ -71,6 +71,9 @@ func MatchExchangeRate(rates []*ExchangeRate, from, to Code) *ExchangeRate {
 		return nil
 	}
 	for _, rate := range rates {
+		if rate == nil {
+			continue
+		}
 		if rate.From == from && rate.To == to {
 			return rate
 		}
